@@ -42,7 +42,13 @@ def custom_first_heuristic():
     return CUSTOM["first"]
 
 
+NT_BASE = 4
+
+
 def template(t):
+    if t > NT_BASE:     # part b of split(2, variable 0) of a base template, made from a fresh problem object
+        base, b = divmod(t - NT_BASE - 1, 2)
+        return template(base + 1).split(2, 0)[b]
     if t == 1:
         from nucs.examples.queens.queens_problem import QueensProblem
         return QueensProblem(5)
@@ -131,6 +137,10 @@ def execute(ops):
             if op == "newproblem":
                 probs.append(template(a))
                 probs[-1].verif_template = a
+            elif op == "split":
+                part = probs[a - 1].split(2, 0)[b - 1]
+                part.verif_template = NT_BASE + 2 * (probs[a - 1].verif_template - 1) + b
+                probs.append(part)
             elif op == "newsolver":
                 prob = probs[a - 1]
                 before = meaning(prob)
